@@ -446,6 +446,81 @@ func runC04(r *engine.Run) {
 		c.Outcome(fmt.Sprintf("ja-C/optneg=%v/changed-input-accepted=%v", optNeg, ok))
 	})
 	// ---- refusals: RXDelay > 15 and JoinNonce >= 2^24 are not encodable
+	// ---- a refused call between two valid ones: valid(key A), refused(key X), valid(key X). What the
+	// refused call leaves behind (it names a key the library has not worked with yet) must not reach
+	// the third call: its ciphertext / plaintext is the specification's for key X
+	spR := (&engine.Space{}).Dim("refused call{encrypt RXDelay 16, encrypt JoinNonce 2^24, decrypt 15-byte body, decrypt 5-byte body}", 4).Dim("third call{encrypt,decrypt}", 2).Dim("cflist{absent,channels}", 2).Dim("keys{A->X, X->A}", 2).Dim("first call{encrypt,decrypt}", 2)
+	r.PartWorkers("joinaccept/refused-between-valid", spR.Desc(), spR.N(), 1, func(c *engine.Case) {
+		var ch [5]int
+		spR.Decode(c.Index, ch[:])
+		kA, kX := c02Keys[1], c02Keys[2]
+		if ch[3] == 1 {
+			kA, kX = kX, kA
+		}
+		j := jaValue{joinNonce: 0x010203, netID: c04NetIDs[1], devAddr: 0x01020304, dlSettings: 0x12, rxDelay: 1, cfKind: ch[2]}
+		mic := [4]byte{0xA1, 0xA2, 0xA3, 0xA4}
+		plain := append(j.wire(), mic[:]...)
+		encrypt := func(key []byte) ([]byte, error) {
+			p := lorawan.PHYPayload{MHDR: lorawan.MHDR{MType: lorawan.JoinAccept}, MACPayload: j.lib(), MIC: lorawan.MIC(mic)}
+			if err := p.EncryptJoinAcceptPayload(keyOf(key)); err != nil {
+				return nil, err
+			}
+			return p.MarshalBinary()
+		}
+		decrypt := func(key []byte) ([]byte, error) {
+			var q lorawan.PHYPayload
+			if err := q.UnmarshalBinary(append([]byte{0x20}, spec.ECBDecrypt(key, plain)...)); err != nil {
+				return nil, err
+			}
+			if err := q.DecryptJoinAcceptPayload(keyOf(key)); err != nil {
+				return nil, err
+			}
+			b, err := q.MACPayload.MarshalBinary()
+			return append(b, q.MIC[:]...), err
+		}
+		c.Eval()
+		// first call: valid, key A
+		if ch[4] == 0 {
+			encrypt(kA)
+		} else {
+			decrypt(kA)
+		}
+		// second call: refused, key X
+		var refusedErr error
+		switch ch[0] {
+		case 0:
+			p := lorawan.PHYPayload{MHDR: lorawan.MHDR{MType: lorawan.JoinAccept}, MACPayload: &lorawan.JoinAcceptPayload{JoinNonce: 1, RXDelay: 16}}
+			refusedErr = p.EncryptJoinAcceptPayload(keyOf(kX))
+		case 1:
+			p := lorawan.PHYPayload{MHDR: lorawan.MHDR{MType: lorawan.JoinAccept}, MACPayload: &lorawan.JoinAcceptPayload{JoinNonce: 1 << 24, RXDelay: 1}}
+			refusedErr = p.EncryptJoinAcceptPayload(keyOf(kX))
+		case 2, 3:
+			var q lorawan.PHYPayload
+			body := fillBytes([]int{15, 5}[ch[0]-2], 0x31)
+			if err := q.UnmarshalBinary(append([]byte{0x20}, body...)); err != nil {
+				refusedErr = err
+			} else {
+				refusedErr = q.DecryptJoinAcceptPayload(keyOf(kX))
+			}
+		}
+		if refusedErr == nil {
+			c.Outcome("refused-between-valid/second-call-not-refused")
+		}
+		// third call: valid, key X
+		c.NonTrivial()
+		if ch[1] == 0 {
+			got, err := encrypt(kX)
+			if want := append([]byte{0x20}, spec.ECBDecrypt(kX, plain)...); err != nil || !bytes.Equal(got, want) {
+				c.Fail("joinaccept/refused-between-valid/ciphertext", fmt.Sprintf("after a valid call with key %x and a refused call with key %x (err %v): encrypting with key %x gives %x (err %v), specification %x", kA, kX, refusedErr, kX, got, err, want), nil)
+			}
+		} else {
+			got, err := decrypt(kX)
+			if err != nil || !bytes.Equal(got, plain) {
+				c.Fail("joinaccept/refused-between-valid/plaintext", fmt.Sprintf("after a valid call with key %x and a refused call with key %x (err %v): decrypting with key %x gives %x (err %v), expected %x", kA, kX, refusedErr, kX, got, err, plain), nil)
+			}
+		}
+	})
+
 	r.Part("joinaccept/refusals", 1, func(c *engine.Case) {
 		c.NonTrivial()
 		j := jaValue{rxDelay: 16}
